@@ -248,3 +248,84 @@ Lemma gmrf_periodic_order0_example :
   gmrf_periodic_ok 4 wit_mean 1 1 I4 I4 wit_Fre wit_Fim [1; 1; 1] [1; 1; 1; 1] wit_off (gmrf_periodic_T 1 wit_Fre wit_Fim [1; 1; 1; 1]) = true /\
   cov_matches tol6 1 I4 (gmrf_periodic_T 1 wit_Fre wit_Fim [1; 1; 1; 1]) = true.
 Proof. split; vm_compute; reflexivity. Qed.
+
+(* ---------------- the optimised dot product is the textbook one ---------------- *)
+(* Model.qdot brings both vectors to a common denominator, multiplies integers and skips zeros; it computes the same
+   rational number (Qeq) as the plain recursion  a1*b1 + (a2*b2 + ...)  of Base.LinAlg.dot -- which is, over an abstract
+   field, the recursion ldot of mc/C05_Link.v for which the covariance theorems are proved. *)
+Definition qdot_ref (x y : Qvec) : Q := dot 0 Qplus Qmult x y.
+
+Lemma common_den_divides v q : In q v -> (Z.pos (Qden q) | Z.pos (common_den v))%Z.
+Proof.
+  induction v as [|a v IH]; intros Hin; [destruct Hin|].
+  cbn [common_den fold_right]. fold (common_den v).
+  assert (Hpos : (0 < Z.lcm (Z.pos (Qden a)) (Z.pos (common_den v)))%Z).
+  { pose proof (Z.lcm_nonneg (Z.pos (Qden a)) (Z.pos (common_den v))) as Hn.
+    destruct (Z.eq_dec (Z.lcm (Z.pos (Qden a)) (Z.pos (common_den v))) 0) as [E|E]; [|lia].
+    apply Z.lcm_eq_0 in E. lia. }
+  rewrite Z2Pos.id by exact Hpos.
+  destruct Hin as [-> | Hin].
+  - apply Z.divide_lcm_l.
+  - eapply Z.divide_trans; [apply IH; exact Hin | apply Z.divide_lcm_r].
+Qed.
+
+Lemma scaled_entry (n : Z) (d D : positive) : (Z.pos d | Z.pos D)%Z ->
+  (n # d) == ((n * (Z.pos D / Z.pos d))%Z # D).
+Proof.
+  intros [k Hk]. unfold Qeq. cbn [Qnum Qden].
+  rewrite Hk. rewrite Z.div_mul by lia. ring.
+Qed.
+
+Lemma zdot_acc_spec xs : forall ys acc Dx Dy,
+  (zdot_acc acc xs ys # (Dx * Dy)) ==
+  (acc # (Dx * Dy)) + qdot_ref (map (fun a => a # Dx) xs) (map (fun b => b # Dy) ys).
+Proof.
+  unfold qdot_ref. induction xs as [|a xs IH]; intros [|b ys] acc Dx Dy; cbn [zdot_acc map dot]; try ring.
+  destruct (a =? 0)%Z eqn:Ea.
+  - apply Z.eqb_eq in Ea. subst a. rewrite IH.
+    assert (E0 : (0 # Dx) * (b # Dy) == 0) by (unfold Qeq, Qmult; cbn; ring). rewrite E0. ring.
+  - rewrite IH.
+    assert (E : ((acc + a * b)%Z # (Dx * Dy)) == (acc # (Dx * Dy)) + (a # Dx) * (b # Dy)).
+    { unfold Qeq, Qplus, Qmult. cbn [Qnum Qden]. rewrite !Pos2Z.inj_mul. ring. }
+    rewrite E. ring.
+Qed.
+
+Lemma qdot_ref_compat x : forall x' y y', Forall2 Qeq x x' -> Forall2 Qeq y y' -> qdot_ref x y == qdot_ref x' y'.
+Proof.
+  unfold qdot_ref. induction x as [|a x IH]; intros x' y y' Hx Hy; inversion Hx; subst; [reflexivity|].
+  inversion Hy; subst; cbn [dot]; [reflexivity|].
+  match goal with H1 : a == _, H2 : _ == _ |- _ => rewrite H1, H2 end. erewrite IH by eassumption. reflexivity.
+Qed.
+
+Lemma scaled_Qeq v : Forall2 Qeq (map (fun a => a # snd (scaled v)) (fst (scaled v))) v.
+Proof.
+  unfold scaled. cbn [fst snd]. set (D := common_den v).
+  assert (H : forall q, In q v -> (Z.pos (Qden q) | Z.pos D)%Z) by (intros; apply common_den_divides; assumption).
+  clearbody D. induction v as [|q v IH]; cbn [map]; constructor.
+  - symmetry. destruct q as [n d]. cbn [Qnum Qden]. apply scaled_entry. apply (H (n # d)). left. reflexivity.
+  - apply IH. intros q' Hq'. apply H. right. exact Hq'.
+Qed.
+
+Theorem qdot_is_dot x y : qdot x y == qdot_ref x y.
+Proof.
+  unfold qdot, sdot. rewrite Qred_correct. rewrite zdot_acc_spec.
+  assert (E0 : (0 # (snd (scaled x) * snd (scaled y))) == 0) by (unfold Qeq; cbn; ring). rewrite E0, Qplus_0_l.
+  apply qdot_ref_compat; apply scaled_Qeq.
+Qed.
+
+(* hence every entry of the model's matrix product is the textbook sum over k of A_ik B_kj *)
+Lemma nth_map_Qeq {X} (f g : X -> Q) (l : list X) j : (forall x, f x == g x) -> nth j (map f l) 0 == nth j (map g l) 0.
+Proof. intros H. revert j. induction l as [|a l IH]; intros [|j]; cbn [map nth]; try reflexivity; auto. Qed.
+
+Lemma nth_nth_map_Qeq {X} (F G : X -> Qvec) (l : list X) i j :
+  (forall x, nth j (F x) 0 == nth j (G x) 0) -> nth j (nth i (map F l) []) 0 == nth j (nth i (map G l) []) 0.
+Proof.
+  intros H. revert i. induction l as [|a l IH]; intros [|i]; cbn [map nth]; auto; destruct j; reflexivity.
+Qed.
+
+Corollary qmm_entry A B i j :
+  nth j (nth i (qmm A B) []) 0 == nth j (nth i (map (fun r => map (fun c => qdot_ref r c) (qtr B)) A) []) 0.
+Proof.
+  unfold qmm. cbv zeta. apply nth_nth_map_Qeq. intros r. rewrite map_map.
+  apply nth_map_Qeq. intros c. apply qdot_is_dot.
+Qed.
